@@ -110,14 +110,15 @@ def value_cases(draw, tier):
     ms = min_size_of(cost, p)
     nmax = 40 if tier == "quick" else 120
     n = D.weighted(draw, [(2, st.integers(ms, ms + 4)), (5, st.integers(ms, 24)), (3, st.integers(ms, nmax))])
-    X = draw(D.any_matrix(n, p))
-    if p > 1 and draw(st.integers(0, 7)) == 0:  # duplicated column
-        j = draw(st.integers(1, p - 1))
-        for row in X:
-            row[j] = row[0]
+    dup = draw(st.integers(1, p - 1)) if p > 1 and draw(st.integers(0, 7)) == 0 else None  # duplicated column
     mode = draw(st.sampled_from(["optimal", "fixed"]))
     param = draw(fixed_param(cost, p)) if mode == "fixed" else None
-    return {"cost": cost, "param": param, "X": X, "cuts": draw(intervals(n, ms))}
+    cuts = draw(intervals(n, ms))
+    X = draw(D.any_matrix(n, p))  # bulk data last (see strategies/data.py)
+    if dup is not None:
+        for row in X:
+            row[dup] = row[0]
+    return {"cost": cost, "param": param, "X": X, "cuts": cuts}
 
 
 def expected_row(cost, param, X, s, e, n_fit, M):
@@ -257,12 +258,13 @@ def check_batch(case):
 
 @st.composite
 def refill_cases(draw, tier):
+    flags = (draw(st.integers(0, 2)), draw(st.booleans()), draw(st.booleans()))  # before the bulk data (strategies/data.py)
     case = draw(value_cases(tier))
     n, p = len(case["X"]), len(case["X"][0])
     case["X2"] = draw(D.any_matrix(n, p))
-    case["container"] = draw(st.sampled_from(["ndarray", "DataFrame", "ndarray1d" if p == 1 else "ndarray"]))
-    case["same_cost_object"] = draw(st.booleans())
-    case["evaluate_between"] = draw(st.booleans())
+    case["container"] = ["ndarray", "DataFrame", "ndarray1d" if p == 1 else "ndarray"][flags[0]]
+    case["same_cost_object"] = flags[1]
+    case["evaluate_between"] = flags[2]
     return case
 
 
@@ -328,9 +330,12 @@ def invalid_param_cases(draw, tier):
     cost = draw(st.sampled_from(COSTS))
     p = draw(st.integers(1, 3))
     n = draw(st.integers(p + 2, 12))
-    X = draw(D.exact_matrix(n, p))
     kind = draw(st.sampled_from(["mean_len", "var_len", "var_nonpos", "cov_shape", "cov_not_pd"]))
     wrong_len = draw(st.integers(2, 5).filter(lambda k: k != p))
+    bad = draw(st.sampled_from([0.0, -1.0, -1e-9]))
+    bad_scalar = draw(st.booleans())
+    choice = draw(st.sampled_from(["zero", "negative", "singular"]))
+    X = draw(D.exact_matrix(n, p))  # bulk data last (see strategies/data.py)
     if cost == "L2Cost":
         kind = "mean_len"
     elif cost == "GaussianVarCost" and kind.startswith("cov"):
@@ -347,12 +352,10 @@ def invalid_param_cases(draw, tier):
     elif kind == "var_len":
         param["var"] = [1.0] * wrong_len
     elif kind == "var_nonpos":
-        bad = draw(st.sampled_from([0.0, -1.0, -1e-9]))
-        param["var"] = bad if draw(st.booleans()) else [1.0] * (p - 1) + [bad]
+        param["var"] = bad if bad_scalar else [1.0] * (p - 1) + [bad]
     elif kind == "cov_shape":
         param["cov"] = np.eye(wrong_len).tolist()
     elif kind == "cov_not_pd":
-        choice = draw(st.sampled_from(["zero", "negative", "singular"]))
         if choice == "zero":
             param["cov"] = 0.0
         elif choice == "negative":
